@@ -138,6 +138,7 @@ class Sock:
         self.connect_to = None; self.connect_h = None; self.connected = None; self.connect_t = None
         self.sent = bytearray()          # bytes accepted by completed writes, in order
         self.rx = []                      # (n, data|None, sum|None)
+        self.rx_t = []                    # arrival instants of those chunks
         self.rx_end = None                # ec that ended the read loop
         self.closed = False               # the scenario closed / cancelled / destroyed it
         self.accepted = False; self.accept_t = None; self.acceptor = None
@@ -147,7 +148,7 @@ class Sock:
 
 def parse(impl, scn):
     T = dict(socks={}, udps={}, binds={}, listens=set(), dns={}, nodes={}, counts=None, proxy=None, crash=None,
-             udp_sent=[], udp_rx=[], nat=False, stopped=False, lossy=False)
+             udp_sent=[], udp_rx=[], nat=False, stopped=False, lossy=False, now=0, udp_recvs={}, udp_closed=set(), assoc=[])
     for ln in scn.split("\n"):
         t = ln.split()
         if not t: continue
@@ -206,12 +207,15 @@ def parse(impl, scn):
                 if m == "bind" and args and res.startswith("ok"):
                     mm = re.search(r"local=(\S+)", res); T["udps"][obj] = mm.group(1) if mm else args[0]
                 elif m == "send_to" and args and res.startswith("ok"):
-                    T["udp_sent"].append((obj, args[0], unhex(k.get("data")) if "data" in k else None))
+                    T["udp_sent"].append((obj, args[0], unhex(k.get("data")) if "data" in k else None, T["now"]))
                 elif m in ("recv", "recv_noep") and args:
-                    pend[args[0]] = ("urecv", obj, None)
+                    pend[args[0]] = ("urecv", obj, None); T["udp_recvs"][obj] = T["udp_recvs"].get(obj, 0) + 1
+                elif m in ("close", "cancel", "destroy"): T["udp_closed"].add(obj)
             continue
         if t[0] == "H" and len(t) >= 3:
             h = t[1]; k = kvs(t[2:]); ec = k.get("ec", "?")
+            try: T["now"] = int(k.get("t", T["now"]))
+            except ValueError: pass
             if h not in pend: continue
             kind, s, extra = pend[h]
             n = int(k.get("n", "0"))
@@ -224,7 +228,7 @@ def parse(impl, scn):
                 s.sent += bytes(stream_byte(st, off + i) for i in range(n))
             elif kind == "read":
                 if ec == "ok":
-                    s.rx.append((n, unhex(k["data"]) if "data" in k else None, k.get("sum")))
+                    s.rx.append((n, unhex(k["data"]) if "data" in k else None, k.get("sum"))); s.rx_t.append(T["now"])
                 else:
                     s.rx_end = ec
             elif kind == "accept":
@@ -364,6 +368,7 @@ def _check(impl, scn):
                 else: E += reply5(0, pxip, rport)
                 complete_replies = len(E)
                 if px["flags"] & 1: must_close = True
+                T["assoc"].append(dict(client=c, relay="%s:%d" % (pxip, rport), ep=(addr, port), reply_len=complete_replies, kind=kind))
         if E is not None:
             if peer_expect is not None: E += peer_expect
             ok, got, d = verify_chunks(c.rx, bytes(E))
@@ -385,9 +390,12 @@ def _check(impl, scn):
                 if got != len(E):
                     fails.append(("relay", "%s <- %s: %d of %d bytes arrived at the client although nobody closed" % (c.name, relay_peer.name, got, len(E))))
     if T["counts"] is not None and not T["crash"]:
-        if any(not (expect_counts[i] <= T["counts"][i] <= expect_counts[i] + maybe_counts[i]) for i in range(3)):
+        # on a lossy path a request may never arrive (a segment dropped again and again, a dropped SYN): upper bound only
+        lo = [0, 0, 0] if T["lossy"] else expect_counts
+        if any(not (lo[i] <= T["counts"][i] <= expect_counts[i] + maybe_counts[i]) for i in range(3)):
             fails.append(("counters", "cmd_counts() = %s, requests received: %s (+ at most %s from clients that closed on a lossy path)" % (T["counts"], expect_counts, maybe_counts)))
     fails += udp_check(T, px, pxip)
+    fails += udp_complete(T, px)
     return fails
 
 
@@ -397,13 +405,64 @@ def complete_ok(T, a, b):
     return (not T["crash"]) and (not T["lossy"]) and (not a.closed) and (not b.closed) and a.reading and b.reading
 
 
+def udp_complete(T, px):
+    """on a lossless path, while the association stands (TCP connection open, flag 1 not set): every
+    well-formed client datagram with a payload, sent after the reply arrived, reaches its target, and
+    every datagram a target sends to the relay reaches the client (wrapped) — as far as the
+    receivers still had a receive pending"""
+    fails = []
+    if T["lossy"] or T["nat"] or T["crash"] or (px["flags"] & 1): return fails
+    for a in T["assoc"]:
+        c = a["client"]
+        if c.closed or a["kind"] != "ip": continue
+        # instant at which the client had the whole reply
+        tot = 0; t_reply = None
+        for (n, d, sm), tt in zip(c.rx, c.rx_t):
+            tot += n
+            if tot >= a["reply_len"]: t_reply = tt; break
+        if t_reply is None: continue
+        relay = a["relay"]
+        aip, aport = a["ep"]
+        # the client's UDP socket: bound to the endpoint the request named (0.0.0.0 = the TCP client's address)
+        cu = [u for u, ep in T["udps"].items() if ep.rsplit(":", 1)[1] == str(aport) and (aip == "0.0.0.0" or ep.rsplit(":", 1)[0] == aip)]
+        if len(cu) != 1 or cu[0] in T["udp_closed"]: continue
+        cu = cu[0]
+        expected = {}       # target socket -> number of datagrams it must get
+        for (u, ep, d, ts) in T["udp_sent"]:
+            if u != cu or ep != relay or d is None or ts <= t_reply: continue
+            w = udp_unwrap(d[:1500])
+            if w is None or len(w[3]) == 0: continue
+            kind, addr, port, payload = w
+            if kind == "name":
+                try: nm = addr.decode("ascii")
+                except Exception: continue
+                ent = T["dns"].get(nm)
+                if not ent or ent[0] != "ok" or not ent[1]: continue
+                addr = ent[1][0]
+            tu = [x for x, e in T["udps"].items() if e == "%s:%d" % (addr, port)]
+            if len(tu) == 1 and tu[0] not in T["udp_closed"]: expected[tu[0]] = expected.get(tu[0], 0) + 1
+        for tu, cnt in expected.items():
+            got = sum(1 for (u, src, n, d, sm) in T["udp_rx"] if u == tu and src == relay)
+            allrx = sum(1 for (u, src, n, d, sm) in T["udp_rx"] if u == tu)
+            pending = T["udp_recvs"].get(tu, 0) - allrx
+            if got < cnt and pending > 0:
+                fails.append(("udp", "%s received %d of the %d well-formed datagrams the client sent it through the relay %s, and is still waiting" % (tu, got, cnt, relay)))
+        # replies
+        back = sum(1 for (u, ep, d, ts) in T["udp_sent"] if u != cu and ep == relay and ts > t_reply and d is not None and len(d) > 0 and u not in T["udp_closed"])
+        gotb = sum(1 for (u, src, n, d, sm) in T["udp_rx"] if u == cu and src == relay)
+        allb = sum(1 for (u, src, n, d, sm) in T["udp_rx"] if u == cu)
+        if gotb < back and T["udp_recvs"].get(cu, 0) - allb > 0:
+            fails.append(("udp", "the client's socket %s received %d of the %d datagrams sent to the relay %s by others, and is still waiting" % (cu, gotb, back, relay)))
+    return fails
+
+
 def udp_check(T, px, pxip):
     """every datagram a relay port delivered is a datagram somebody sent to that port, with exactly
     the header stripped (client -> target) or exactly the header naming the source prepended
     (target -> client)"""
     fails = []
     relays = set("%s:%d" % (pxip, px["bind_start"] + k) for k in range(8))
-    sent_to_relay = [(u, ep, d) for (u, ep, d) in T["udp_sent"] if ep in relays and d is not None]
+    sent_to_relay = [(u, ep, d) for (u, ep, d, ts) in T["udp_sent"] if ep in relays and d is not None]
     if not sent_to_relay: return fails
     for (u, src, n, data, sm) in T["udp_rx"]:
         if src not in relays: continue
@@ -412,8 +471,9 @@ def udp_check(T, px, pxip):
         for (su, ep, d) in sent_to_relay:
             if ep != src: continue
             sender = T["udps"].get(su)
-            # (a) forwarded client datagram: header stripped
-            w = udp_unwrap(d)
+            # (a) forwarded client datagram: header stripped (the relay's array holds 1500 bytes: a longer
+            # datagram is cut there first)
+            w = udp_unwrap(d[:1500])
             if w is not None:
                 kind, addr, port, payload = w
                 if kind == "name":
@@ -429,14 +489,14 @@ def udp_check(T, px, pxip):
             if sender and not T["nat"]:
                 sip, sport = sender.rsplit(":", 1)
                 hdr = bytes([0, 0, 0, 1]) + ipb(sip) + bytes([int(sport) >> 8, int(sport) & 255])
-                whole = hdr + d
+                whole = hdr + d[:1500]
                 if len(whole) == n and ((data is not None and whole == data) or (data is None and fnv(whole) == sm)):
                     okc = True; break
                 # … or naming it by the host name the client used for it
                 for nm, (err, ips) in T["dns"].items():
                     if sip in ips[:1]:
                         h2 = bytes([0, 0, 0, 3, len(nm)]) + nm.encode() + bytes([int(sport) >> 8, int(sport) & 255])
-                        w2 = h2 + d
+                        w2 = h2 + d[:1500]
                         if len(w2) == n and ((data is not None and w2 == data) or (data is None and fnv(w2) == sm)):
                             okc = True; break
                 if okc: break
